@@ -6,7 +6,7 @@ package gov
 import (
 	"fmt"
 	"math"
-	"sort"
+	"math/bits"
 	"strings"
 
 	"github.com/ontio/ontology/common"
@@ -18,11 +18,38 @@ import (
 
 type gen struct{ t *rapid.T }
 
+// rapid's integer generators are deliberately biased towards small values and range bounds. That is what
+// one wants for amounts (rng) but not for categorical choices (which action, which node, percentages): those
+// are drawn uniformly, built from unbiased coin flips with rejection (shrinks towards index 0).
+var uniformGens = map[int]*rapid.Generator[int]{}
+
+func uniform(n int) *rapid.Generator[int] {
+	if g, ok := uniformGens[n]; ok {
+		return g
+	}
+	k := bits.Len(uint(n - 1))
+	g := rapid.Custom(func(t *rapid.T) int {
+		for {
+			v := 0
+			for i := 0; i < k; i++ {
+				if rapid.Bool().Draw(t, "b") {
+					v |= 1 << i
+				}
+			}
+			if v < n {
+				return v
+			}
+		}
+	})
+	uniformGens[n] = g
+	return g
+}
+
 func (g gen) n(label string, n int) int {
 	if n <= 1 {
 		return 0
 	}
-	return rapid.IntRange(0, n-1).Draw(g.t, label)
+	return uniform(n).Draw(g.t, label)
 }
 func (g gen) pct(label string) int { return g.n(label, 100) }
 func (g gen) rng(label string, lo, hi uint64) uint64 {
@@ -57,7 +84,7 @@ var profSplit = &profile{name: "split", arbitrary: 25, w: map[string]int{"regist
 // custody focus: nodes come and go, stakes are frozen, unfrozen, penalised and withdrawn
 var profCustody = &profile{name: "custody", arbitrary: 30, w: map[string]int{"registerCandidate": 10, "unRegisterCandidate": 1, "quitNode": 8,
 	"authorizeForPeer": 12, "unAuthorizeForPeer": 8, "withdraw": 14, "withdrawOng": 2, "withdrawFee": 2, "addInitPos": 4, "reduceInitPos": 4,
-	"setPeerCost": 1, "changeMaxAuthorization": 6, "setFeePercentage": 1, "blackNode": 6, "whiteNode": 3, "updateGlobalParam": 3,
+	"setPeerCost": 1, "changeMaxAuthorization": 6, "setFeePercentage": 1, "blackNode": 8, "whiteNode": 3, "updateGlobalParam": 3,
 	"updateGlobalParam2": 2, "setGasAddress": 1, "income": 2, "commitDpos": 18, "transferPenalty": 2}}
 
 var G = nutils.GovernanceContractAddress
@@ -97,7 +124,7 @@ func (h *hist) drawTick() {
 func (h *hist) sigs(req common.Address) []common.Address {
 	out := []common.Address{req}
 	if h.g.pct("extraSig") < 25 {
-		x := h.anyAddr("sigX")
+		x := h.anySigner("sigX")
 		if h.g.pct("sigFront") < 50 {
 			out = append([]common.Address{x}, out...)
 		} else {
@@ -112,13 +139,25 @@ func (h *hist) anyAddr(label string) common.Address {
 	return pool[h.g.n(label, len(pool))]
 }
 
+// anySigner: only accounts that can sign a transaction. Contract addresses (governance, ONT, the zero address)
+// have no key: a transaction can never carry them as witness, and the contract relies on that (a forged
+// governance witness would let registerCandidate record a stake whose ONT transfer is a self-transfer).
+func (h *hist) anySigner(label string) common.Address {
+	pool := append(append([]common.Address{}, h.w.tracked...), h.w.admin, h.w.bank, h.w.dapps[0])
+	return pool[h.g.n(label, len(pool))]
+}
+
+func (h *hist) canSign(a common.Address) bool {
+	return a != G && a != common.ADDRESS_EMPTY
+}
+
 func (h *hist) anySigs(hint common.Address) []common.Address {
 	var out []common.Address
-	if h.g.pct("sigHint") < 55 {
+	if h.g.pct("sigHint") < 55 && h.canSign(hint) {
 		out = append(out, hint)
 	}
 	for i, k := 0, h.g.n("sigN", 3); i < k; i++ {
-		out = append(out, h.anyAddr("sigA"))
+		out = append(out, h.anySigner("sigA"))
 	}
 	return out
 }
@@ -424,6 +463,15 @@ func (h *hist) validAction(kind string) *action {
 		if len(c) == 0 {
 			return nil
 		}
+		var pen []*authInfo // positions left over by a black-listed peer (penalised): the rarest kind
+		for _, e := range c {
+			if h.goneBlack[e.pub] {
+				pen = append(pen, e)
+			}
+		}
+		if len(pen) > 0 && g.pct("wdPenalised") < 50 {
+			c = pen
+		}
 		e := c[g.n("wdEntry", len(c))]
 		amt := func(e *authInfo) uint32 {
 			if g.pct("wdAll") < 60 {
@@ -473,6 +521,15 @@ func (h *hist) validAction(kind string) *action {
 		}
 		if len(c) == 0 {
 			return nil
+		}
+		var reg []*peerItem
+		for _, p := range c {
+			if _, ok := s.promise[p.pub]; ok {
+				reg = append(reg, p)
+			}
+		}
+		if len(reg) > 0 && g.pct("addRegistered") < 60 {
+			c = reg
 		}
 		p := c[g.n("addNode", len(c))]
 		pos := g.of("addPos", 1, 500, 10000, 100000)
@@ -546,14 +603,31 @@ func (h *hist) validAction(kind string) *action {
 
 	case "blackNode":
 		active := s.activeCount()
+		sameBlock := h.n.Height == s.viewHeight // black-listing a consensus node changes the epoch: once per block
 		var c []*peerItem
 		for _, k := range s.poolKeys {
-			if p := s.pool[k]; !p.active() || active-1 >= int(s.cfg.K) {
+			p := s.pool[k]
+			if sameBlock && p.status == stConsensus {
+				continue
+			}
+			if !p.active() || active-1 >= int(s.cfg.K) {
 				c = append(c, p)
 			}
 		}
 		if len(c) == 0 {
 			return nil
+		}
+		var staked []*peerItem // nodes somebody else has a position in: their black-listing penalises authorizers
+		for _, p := range c {
+			for i := range s.auth {
+				if e := &s.auth[i]; e.pub == p.pub && e.addr != p.owner && e.staked()+e.wcons+e.wcand > 0 {
+					staked = append(staked, p)
+					break
+				}
+			}
+		}
+		if len(staked) > 0 && g.pct("blackStaked") < 65 {
+			c = staked
 		}
 		p := c[g.n("blackNode", len(c))]
 		pubs := []string{p.pub}
@@ -754,33 +828,26 @@ func (h *hist) next() *action {
 	if h.g.pct("arbitrary") < h.prof.arbitrary {
 		return h.arbitraryAction(kinds[h.g.n("arbKind", len(kinds))])
 	}
-	// weighted choice among the kinds; a kind without candidate in the current state falls through to the next
+	// weighted choice among the kinds; a kind without candidate in the current state is redrawn, so that its
+	// weight is redistributed over the kinds the state allows
 	total := 0
 	for _, k := range kinds {
 		total += h.prof.w[k]
 	}
-	r := h.g.n("kind", total)
-	start := 0
-	for i, k := range kinds {
-		if r < h.prof.w[k] {
-			start = i
-			break
+	for try := 0; try < 10; try++ {
+		r := h.g.n("kind", total)
+		for _, k := range kinds {
+			if r < h.prof.w[k] {
+				if a := h.validAction(k); a != nil {
+					return a
+				}
+				break
+			}
+			r -= h.prof.w[k]
 		}
-		r -= h.prof.w[k]
 	}
-	for i := 0; i < len(kinds); i++ {
-		if a := h.validAction(kinds[(start+i)%len(kinds)]); a != nil {
-			return a
-		}
+	if a := h.validAction("commitDpos"); a != nil {
+		return a
 	}
 	return h.validAction("income")
-}
-
-func sortedKeys(m map[string]int) []string {
-	var k []string
-	for x := range m {
-		k = append(k, x)
-	}
-	sort.Strings(k)
-	return k
 }
